@@ -114,11 +114,10 @@ func debOutcome(raw []byte, eager bool) (string, error) {
 			if e == nil || e.Size < 0 {
 				return errf("ArContent[%q] is nil or has a negative size", name)
 			}
-			if name != "data.tar" && !strings.HasPrefix(name, "data.") { // the data member is being streamed
-				b, rerr := io.ReadAll(io.NewSectionReader(e.Data, 0, e.Data.Size()))
-				if rerr != nil || int64(len(b)) != e.Size {
-					return errf("ArContent[%q] declares %d bytes but delivers %d (err %v)", name, e.Size, len(b), rerr)
-				}
+			// through the member's own reader, from where the loader left it
+			b, rerr := io.ReadAll(e.Data)
+			if rerr != nil || int64(len(b)) != e.Size {
+				return errf("ArContent[%q] declares %d bytes but its reader delivers %d (err %v)", name, e.Size, len(b), rerr)
 			}
 			names = append(names, fmt.Sprintf("%s:%d", name, e.Size))
 		}
@@ -247,7 +246,7 @@ func genCorruptArchive(t *rapid.T) BytesCase {
 			ms = append(ms, genArMember(t, "m"))
 		}
 	}
-	op := rapid.SampledFrom([]string{"column", "column", "column", "columns", "magic", "truncate", "duplicate", "reorder", "decoy", "padding", "globalmagic", "none"}).Draw(t, "op")
+	op := rapid.SampledFrom([]string{"column", "column", "column", "columns", "longnames", "magic", "truncate", "duplicate", "reorder", "decoy", "padding", "globalmagic", "none"}).Draw(t, "op")
 	note := op
 	switch op {
 	case "duplicate":
@@ -302,6 +301,19 @@ func genCorruptArchive(t *rapid.T) BytesCase {
 			copy(raw[offs[i]+col.off:offs[i]+col.off+col.len], []byte(padRight(txt, col.len)))
 			note += col.name + "=" + txt + ","
 		}
+	case "longnames":
+		// what a GNU ar would read as a name table ("//") and references into it ("/<offset>"):
+		// this reader knows neither, and must neither trip over them
+		i := rapid.IntRange(0, len(ms)-1).Draw(t, "i")
+		copy(raw[offs[i]:offs[i]+16], []byte(padRight("//", 16)))
+		note = "longnames://@" + itoa(i)
+		for j := i + 1; j < len(ms); j++ {
+			if rapid.Bool().Draw(t, "ref") {
+				ref := "/" + itoa(rapid.SampledFrom([]int{0, 1, 5, 17, 100, 99999}).Draw(t, "refoff"))
+				copy(raw[offs[j]:offs[j]+16], []byte(padRight(ref, 16)))
+				note += "," + ref + "@" + itoa(j)
+			}
+		}
 	case "magic":
 		i := rapid.IntRange(0, len(ms)-1).Draw(t, "i")
 		which := rapid.IntRange(0, 2).Draw(t, "which")
@@ -333,7 +345,7 @@ func genCorruptArchive(t *rapid.T) BytesCase {
 
 var specC15Corrupt = Register(&Spec[BytesCase]{
 	Prop: "C15", Name: "corrupt",
-	Rule: "structured corruption of valid artefacts (C13 archives and C14 packages with stored/gzip members): one header column (name, mtime, uid, gid, mode, size, magic) of one member overwritten with negative, '+'-signed, huge, blank, non-numeric, NUL, hex or overflowing text; 2..4 numeric columns of one header made non-numeric at once; one or both header magic bytes changed; truncation at a generated offset; a member duplicated (same or changed content), members reordered, a decoy control.*/data.* member with another extension (optionally a tar with 'Package: evil') inserted; a padding byte added or removed; a global magic byte flipped. Oracle: no panic; the Next() loop ends in io.EOF or an error within len/60+2 steps; every returned member sits behind a header ending 0x60 0x0A, has Size >= 0 and a reader delivering exactly Size bytes; deb.Load stays within a read budget and returns within 20 s; seven iterations / loads of the same bytes give the same outcome (the same error text, or the same extensions, control identity and member index). Non-trivial: >= 1 member returned or a first header parsed; distinct by bytes.",
+	Rule: "structured corruption of valid artefacts (C13 archives and C14 packages with stored/gzip members): one header column (name, mtime, uid, gid, mode, size, magic) of one member overwritten with negative, '+'-signed, huge, blank, non-numeric, NUL, hex or overflowing text; 2..4 numeric columns of one header made non-numeric at once; a member renamed '//' and later ones '/<offset>' (GNU long-name table and references); one or both header magic bytes changed; truncation at a generated offset; a member duplicated (same or changed content), members reordered, a decoy control.*/data.* member with another extension (optionally a tar with 'Package: evil') inserted; a padding byte added or removed; a global magic byte flipped. Oracle: no panic; the Next() loop ends in io.EOF or an error within len/60+2 steps; every returned member sits behind a header ending 0x60 0x0A, has Size >= 0 and a reader delivering exactly Size bytes; deb.Load stays within a read budget and returns within 20 s; seven iterations / loads of the same bytes give the same outcome (the same error text, or the same extensions, control identity and member index). Non-trivial: >= 1 member returned or a first header parsed; distinct by bytes.",
 	Check: checkBytesCase,
 })
 
